@@ -28,7 +28,7 @@ class Flow:
         for i, p in enumerate(fn_hir.get("params", [])):
             if p.get("k") == "Bind":
                 env[p["name"]] = ("arg", i) if not (i == 0 and first_param_desc) else first_param_desc
-        self.visit(fn_hir["body"], env, ())
+        self.visit(fn_hir["body"], env, (), True)
 
     # -- expression descriptor ------------------------------------------------
     def desc(self, e, env):
@@ -173,11 +173,30 @@ class Flow:
         return out
 
     # -- statements / control flow ----------------------------------------------
-    def visit(self, e, env, cond):
-        """visits e for its calls; env is copied on branches"""
+    @staticmethod
+    def diverges(e):
+        """does evaluating e always leave the enclosing function/loop iteration (return / break / continue)?"""
+        if e is None:
+            return False
+        k = e.get("k")
+        if k in ("Ret", "Break", "Continue"):
+            return True
+        if k == "Block":
+            st = e["b"].get("stmts", [])
+            if e["b"].get("e") is not None:
+                return Flow.diverges(e["b"]["e"])
+            return bool(st) and Flow.diverges(st[-1])
+        if k == "If":
+            return "else" in e and Flow.diverges(e["then"]) and Flow.diverges(e["else"])
+        return False
+
+    def visit(self, e, env, cond, tail=False):
+        """visits e for its calls; env is copied on branches; `tail` marks the expression whose value the function returns"""
         if e is None:
             return
         k = e.get("k")
+        if tail and k not in ("Block", "If", "Match", "Ret"):
+            self.returns.append((self.desc(e, env), cond, e.get("l")))
         if k == "Block":
             env = dict(env)
             for s in e["b"].get("stmts", []):
@@ -189,8 +208,16 @@ class Flow:
                         self.visit({"k": "Block", "b": s["else"]}, env, cond)
                 else:
                     self.visit(s, env, cond)
+                    # `if c { return .. }` : what follows runs under not(c)
+                    if s.get("k") == "If" and "else" not in s and self.diverges(s["then"]):
+                        c = s["c"]
+                        cc = strip(c) if c.get("k") != "Let" else c
+                        if cc.get("k") == "Let":
+                            cond = cond + ((self.desc(cc["e"], env), tuple(self.pat_ctors(cc["p"])), False),)
+                        else:
+                            cond = cond + ((self.desc(c, env), ("true",), False),)
             if e["b"].get("e") is not None:
-                self.visit(e["b"]["e"], env, cond)
+                self.visit(e["b"]["e"], env, cond, tail)
         elif k == "If":
             c = e["c"]
             tenv = dict(env)
@@ -208,9 +235,9 @@ class Flow:
                 d = self.desc(c, env)
                 tcond = cond + ((d, ("true",), True),)
                 fcond = cond + ((d, ("true",), False),)
-            self.visit(e["then"], tenv, tcond)
+            self.visit(e["then"], tenv, tcond, tail)
             if "else" in e:
-                self.visit(e["else"], dict(env), fcond)
+                self.visit(e["else"], dict(env), fcond, tail)
         elif k == "Match":
             self.visit(e["e"], env, cond)
             d = self.desc(e["e"], env)
@@ -224,7 +251,7 @@ class Flow:
                     acond = cond
                 if "g" in arm:
                     self.visit(arm["g"], aenv, acond)
-                self.visit(arm["b"], aenv, acond)
+                self.visit(arm["b"], aenv, acond, tail)
         elif k == "Call":
             for x in e.get("args", []):
                 self.visit(x, env, cond)
